@@ -666,6 +666,7 @@ def check_C14(F, tier, t0):
     guarded(R, 'E1', engine_e.rule_E1, F, R)      # node identity is the address of the interned node: every node must be born in mk_choice
     guarded(R, 'X4 lineage', engine_x.rule_X4, F, R, ('model', 'retain'))      # the exported diagram is the one the table shows (after --retain-choices and --model)
     guarded(R, 'X7', engine_x.rule_X7, F, R)
+    guarded(R, 'X4 rendered', engine_x.rule_X4_rendered, F, R)      # an export that is asked for is written
     guarded(R, 'X7 children', engine_x.rule_X7_children, F, R)      # both children of a decision node, the child itself as the target of a parse-tree edge
     guarded(R, 'X8', engine_x.rule_X8, F, R, 'rsbdd', 'executable')
     guarded(R, 'T filter spellings', engine_t.rule_tte, F, R)
